@@ -13,6 +13,7 @@ def Prog.NoPlayData : Prog → Prop
   | .discard k => k.NoPlayData
   | .force k => k.NoPlayData
   | .recordData _ _ k => k.NoPlayData
+  | .setEnabled _ k => k.NoPlayData
   | .playData _ _ => False
 
 theorem shouldIntercept_record {s : St} {a : Active} (hp : s.playback = none) (he : s.enabled = true)
@@ -75,6 +76,19 @@ theorem replay_core (w : Key → RVal) : ∀ (p : Prog), p.Faithful w → p.NoPl
     unfold ReplayOK at this ⊢
     rw [exec, exec, doRecordData_inactive _ _ ta]
     simpa [extractOutputs_free] using this
+  | setEnabled b k ih =>
+    intro hF hN s t a aF r o hp he hi ha hact hend tp tr ti ta tc
+    cases b with
+    | false =>
+      rw [exec, exec_active_none k _ (doSetEnabled_false_active s)] at hact
+      cases hact
+    | true =>
+      rw [exec, doSetEnabled_true_of_enabled he] at hact hend
+      have := ih hF hN s (doSetEnabled t true) a aF r o hp he hi ha hact hend (by simpa using tp) tr (by simpa using ti)
+        (doSetEnabled_active_none true ta) (by rw [doSetEnabled_inactive true ta]; exact tc)
+      unfold ReplayOK at this ⊢
+      rw [exec, exec, doSetEnabled_true_of_enabled he]
+      simpa using this
   | playData key k ih =>
     intro _ hN
     exact absurd hN (by simp [Prog.NoPlayData])
@@ -150,7 +164,7 @@ theorem replay_core (w : Key → RVal) : ∀ (p : Prog), p.Faithful w → p.NoPl
             have hfp : firstPresent r.data (k0 :: fb) = some k0 := by
               simp [firstPresent, hasKey_of_getD hrk]
             have ih := ihk ob (hFk ob) (hN ob) (write (setInt s1 false) k0 env) t _ aF r o
-              (by simpa using b2) (by simpa using b3.trans (by simpa using he)) (by simp [setInt]) hs2a hact hend
+              (by simpa using b2) (by simpa using b3 (by simpa using he) a1 h1a) (by simp [setInt]) hs2a hact hend
               tp tr ti ta (by rw [tc]; simpa using c2.symm)
             unfold ReplayOK at ih ⊢
             have hexec_t : exec t (.callIn cfg args body k) = exec t (k ob) := by
@@ -253,7 +267,7 @@ theorem replay_core (w : Key → RVal) : ∀ (p : Prog), p.Faithful w → p.NoPl
           have ih := ihk ob (hFk ob) (hN ob)
             (write (setInt s2 false) (.outRes cfg.alias (cnt s.counter cfg.alias + 1)) env)
             (pushPlayback (bump t cfg.alias) (.outArgs cfg.alias (cnt t.counter cfg.alias + 1)) val) _ aF r o
-            (by simpa using b2) (by simpa using b3.trans (by simpa using he)) (by simp [setInt]) hs3a hact hend
+            (by simpa using b2) (by simpa using b3 (by simpa using he) a2 h2a) (by simp [setInt]) hs3a hact hend
             (by simpa using tp) tr (by simpa using ti) (by simpa using ta)
             (by simp only [pushPlayback_counter, write_counter, setInt_counter, hcnt, bump, tc])
           unfold ReplayOK at ih ⊢
